@@ -6,9 +6,10 @@
 // Input  ($VERIF_IN):  JSON array of {"id":n, "src": "...", "muts": ["...", ...]}
 // Output ($VERIF_OUT): one JSON object per case:
 //
-//	toks   non-comment tokens of src by the Go scanner: [kind, text, nl]  (nl=1 when the
-//	       token starts on a later line than the previous non-comment token)
-//	cmts   comment tokens: [index of the preceding non-comment token, kind, text, sameLine]
+//	toks   non-comment tokens of src by the Go scanner: [kind, text, nl, line]  (nl=1 when the
+//	       token starts on a later line than the previous non-comment token; line = the
+//	       scanner's own line number, which ignores line breaks inside comments and strings)
+//	cmts   comment tokens: [index of the preceding non-comment token, kind, text, sameLine, line, col]
 //	serr   scanner error (if any)
 //	ast    canonical dump of parser.Parse()'s AST (nil when the parser reported errors)
 //	perr   parser error text
@@ -16,17 +17,20 @@
 //	ftoks/fcmts/fast   the same projections of fmt1
 //	fmt2   format.Source(fmt1), f2out
 //	idem   fmt2 == fmt1 byte for byte
+//	file   format.File on a scratch file holding src: "same" when it left exactly fmt1 in the
+//	       file (valid src) / returned an error and left the file alone (invalid src)
 //	muts   per mutated source: ok|err|panic:<msg>|timeout
 //
 // The executor only executes; generation, mutation, shrinking and Coq rendering are in Python.
 package main
 
 import (
-	"bytes"
 	"bufio"
+	"bytes"
 	"encoding/json"
 	"fmt"
 	"os"
+	"path/filepath"
 	"runtime/debug"
 	"strings"
 	"time"
@@ -45,27 +49,30 @@ type Case struct {
 }
 
 type Out struct {
-	ID    int     `json:"id"`
-	Toks  [][]any `json:"toks"`
-	Cmts  [][]any `json:"cmts"`
-	Serr  string  `json:"serr,omitempty"`
-	Ast   any     `json:"ast"`
-	Perr  string  `json:"perr,omitempty"`
-	Pout  string  `json:"pout"`
-	Fmt1  string  `json:"fmt1"`
-	Ferr  string  `json:"ferr,omitempty"`
-	Fout  string  `json:"fout"`
-	FToks [][]any `json:"ftoks"`
-	FCmts [][]any `json:"fcmts"`
-	FAst  any     `json:"fast"`
-	Fmt2  string  `json:"fmt2"`
-	F2out string  `json:"f2out"`
-	Idem  bool    `json:"idem"`
+	ID    int      `json:"id"`
+	Toks  [][]any  `json:"toks"`
+	Cmts  [][]any  `json:"cmts"`
+	Serr  string   `json:"serr,omitempty"`
+	Ast   any      `json:"ast"`
+	Perr  string   `json:"perr,omitempty"`
+	Pout  string   `json:"pout"`
+	Fmt1  string   `json:"fmt1"`
+	Ferr  string   `json:"ferr,omitempty"`
+	Fout  string   `json:"fout"`
+	FToks [][]any  `json:"ftoks"`
+	FCmts [][]any  `json:"fcmts"`
+	FAst  any      `json:"fast"`
+	Fmt2  string   `json:"fmt2"`
+	F2out string   `json:"f2out"`
+	Idem  bool     `json:"idem"`
+	File  string   `json:"file"`
 	Muts  []string `json:"muts"`
-	Err   string  `json:"err,omitempty"`
+	Err   string   `json:"err,omitempty"`
 }
 
-const callTimeout = 3 * time.Second
+// a formatter call takes milliseconds; the limit only has to tell a hang from a slow machine
+// (the box is shared: under heavy load a goroutine was seen to miss a 3 s limit)
+const callTimeout = 20 * time.Second
 
 // guarded runs f with recover and a timeout; outcome is ok|panic:...|timeout.
 func guarded(f func()) string {
@@ -127,7 +134,7 @@ func scan(src string) (toks [][]any, cmts [][]any, serr string) {
 			if t.Type == token.ILLEGAL {
 				// the parser stops at an illegal token; the scanner may not advance past it
 				// (a trailing '@' is returned forever)
-				toks = append(toks, []any{"ILLEGAL", t.Text, 0})
+				toks = append(toks, []any{"ILLEGAL", t.Text, 0, t.Position.Line})
 				return
 			}
 			if t.Type == token.COMMENT || t.Type == token.DOCUMENT {
@@ -143,7 +150,7 @@ func scan(src string) (toks [][]any, cmts [][]any, serr string) {
 				nl = 1
 			}
 			prevLine = t.Position.Line
-			toks = append(toks, []any{kind(t), t.Text, nl})
+			toks = append(toks, []any{kind(t), t.Text, nl, t.Position.Line})
 		}
 	})
 	if out != "ok" {
@@ -337,6 +344,35 @@ func formatSrc(src string) (text string, ferr string, outcome string) {
 	return
 }
 
+// formatFile runs the file entry point format.File on a scratch file next to $VERIF_OUT.
+func formatFile(id int, src string, want string, wantOK bool) string {
+	name := filepath.Join(filepath.Dir(os.Getenv("VERIF_OUT")), fmt.Sprintf("c20_file_%d_%d.api", os.Getpid(), id))
+	if err := os.WriteFile(name, []byte(src), 0o644); err != nil {
+		return "scratch file: " + err.Error()
+	}
+	defer os.Remove(name)
+	var ferr error
+	out := guarded(func() { ferr = format.File(name) })
+	if out != "ok" {
+		return out
+	}
+	data, err := os.ReadFile(name)
+	if err != nil {
+		return "scratch file: " + err.Error()
+	}
+	switch {
+	case wantOK && ferr != nil:
+		return "File failed where Source succeeded: " + trunc(ferr.Error(), 200)
+	case wantOK && string(data) != want:
+		return "File wrote a text that differs from Source's"
+	case !wantOK && ferr == nil:
+		return "File succeeded where Source failed"
+	case !wantOK && string(data) != src:
+		return "File changed a file it could not format"
+	}
+	return "same"
+}
+
 func trunc(s string, n int) string {
 	if len(s) > n {
 		return s[:n]
@@ -368,6 +404,7 @@ func runCase(c Case) Out {
 		o.F2out = "empty"
 		o.Idem = true
 	}
+	o.File = formatFile(c.ID, c.Src, o.Fmt1, o.Fout == "ok")
 	for _, m := range c.Muts {
 		if len(m) == 0 {
 			o.Muts = append(o.Muts, "skipped-empty")
